@@ -17,3 +17,22 @@ Definition tiger_mod (l r : Z) : Z :=
   if b =? 0 then 0
   else let m := Z.abs a mod Z.abs b in
        (if a <? 0 then - m else m) mod 65536.
+
+(* ---- tiger_tstrcmp_reg: the register-convention string comparison, a Python helper over the machine's memory ----
+   [rd] is vm.load_memory (0 beyond the end of the list; addresses are not wrapped by the helper).  A string at
+   address s is its length rd s followed by its characters rd (s+1) ... *)
+Fixpoint tstrcmp_go (rd : Z -> Z) (s1 s2 : Z) (k : nat) (i : Z) : option Z :=
+  match k with
+  | O => None                                        (* ran through the common prefix *)
+  | S k' =>
+      let c1 := rd (s1 + i + 1) in let c2 := rd (s2 + i + 1) in
+      if c1 <? c2 then Some 65535                    (* to_u16(-1) *)
+      else if c2 <? c1 then Some 1
+      else tstrcmp_go rd s1 s2 k' (i + 1)
+  end.
+Definition tstrcmp_reg (rd : Z -> Z) (s1 s2 : Z) : Z :=
+  let n1 := rd s1 in let n2 := rd s2 in
+  match tstrcmp_go rd s1 s2 (Z.to_nat (Z.min n1 n2)) 0 with
+  | Some r => r
+  | None => if n1 =? n2 then 0 else if n1 <? n2 then 65535 else 1
+  end.
